@@ -596,9 +596,11 @@ class Machine:
         o = self.globals.get(name)
         if o is None:
             g = self.prog.globals.get(name)
-            if g is None:
-                raise Unsupported("unknown global %s" % name)
             init = self.global_init.get(name)
+            if g is None and init is None:
+                raise Unsupported("unknown global %s" % name)
+            if g is None:
+                g = {'et': None}
             if init is not None:
                 tree = init(self)
             else:
